@@ -104,3 +104,16 @@ reg("C15", EX, "small-scope exhaustive enumeration of 2D data x grids x boundary
     "admissible assignments of the six names to four sides on grids with <= 4 cells and 12 boundary sets on 2x3, 3x2, 3x3 (4x2, 2x4), "
     "including insup with an oblique angle.",
     "alphabet lattice; tolerance 64 eps of the flux scale over min(dx,dy)", "DESIGN.md 3/C15")
+reg("C03", EX, "small-scope exhaustive enumeration of uniform states x meshes x configurations x compatible boundary sets; explicit enumeration of real solve runs",
+    "Every uniform state of a product alphabet (sub/supersonic, both directions, 8 flow angles in 2D, at rest) on 12 meshes (2D: 9 grids), all "
+    "reconstructions and registered fluxes, with every boundary set compatible with the state - periodic, dirichlet, every in-regime "
+    "inlet/outlet pair on either side with ptot, rttot, p computed from the state by reference relations, 2D: 9 families including inlets through "
+    "each of the four sides and oblique supersonic inflow with the angle parameter - gives a zero real residual; nozzle at rest for 5 section laws; "
+    "2 solve iterations + snapshot for every integrator class, global and local time step, return the state.",
+    "alphabet lattice; tolerance 64 eps of the flux scale/dx x (1+2/((g-1)M^2)) for inlets; implicit 2e-6; Burgers u==0 is a known finding", "DESIGN.md 3/C03")
+reg("C19", EX, "small-scope exhaustive enumeration of source lists x models x meshes x data; differential oracle (with vs without sources) and call counters",
+    "Every source list over {None, constant, f(x), f(Q)}^neq for euler1d, nozzle (4 section laws) and shallow water, on 5 meshes with n<=4 cells, 3 "
+    "reconstructions, 2 fluxes and every data assignment of a 3-letter alphabet: the real rhs with sources minus the real rhs without equals "
+    "source_i(x,Q) on equation i and nothing elsewhere, each source function is called exactly once per rhs, and the nozzle's built-in term "
+    "equals -(1/A)(dA/dx) x (rho u, rho u^2, rho u H), identically zero for a constant section.",
+    "alphabet lattice; tolerance 16 eps of |source|+|rhs|", "DESIGN.md 3/C19")
